@@ -25,9 +25,10 @@ ALIASES = [("sampling_rate", "sr"), ("sample_width", "sw"), ("channels", "ch"), 
 FRAGILE = [(rate, n) for rate in (7, 100, 441, 11025, 22050, 44100, 48000) for n in range(1, 130) if int(n / rate * rate) != n]
 
 
-def synth(r, rate, w, ch, W, nwin, partial):
-    """audio whose windows are clearly active (about 60-70 dB for w>=2, 40 dB for w=1) or clearly silent"""
-    loud = {1: 100, 2: 3000, 4: 300000}[w]
+def synth(r, rate, w, ch, W, nwin, partial, faint=False):
+    """audio whose windows are clearly active (about 60-70 dB for w>=2, 40 dB for w=1) or clearly silent;
+    faint: active windows of amplitude 4 (about 12 dB) between windows of digital silence, for thresholds around 0 dB"""
+    loud = 4 if faint else {1: 100, 2: 3000, 4: 300000}[w]
     pattern, data = [], []
     p_on = r.choice([0.3, 0.5, 0.7]); run = r.randint(1, 6)
     cur = 0
@@ -43,7 +44,7 @@ def synth(r, rate, w, ch, W, nwin, partial):
                 if on and (c == active_ch or r.random() < 0.3):
                     data.append(loud if (i + c) % 2 == 0 else -loud)
                 else:
-                    data.append(r.choice([0, 1, -1, 2]))
+                    data.append(0 if faint else r.choice([0, 1, -1, 2]))
     return struct.pack("<%d%s" % (len(data), FMT[w]), *data), pattern, active_ch
 
 
@@ -70,7 +71,8 @@ def gen_case(r, quick):
         rate, W = r.choice(FRAGILE)
         aw = (W + 0.5) / rate
     nwin = r.randint(0, 25 if quick else 60)
-    data, pattern, act = synth(r, rate, w, ch, W, nwin, r.random() < 0.5)
+    faint = r.random() < 0.15
+    data, pattern, act = synth(r, rate, w, ch, W, nwin, r.random() < 0.5, faint)
     k = r.randint(1, 4)
     params = {
         "min_dur": r.choice([aw, 2 * aw, 3 * aw, aw * 0.5, 0.2 * W]),
@@ -79,7 +81,7 @@ def gen_case(r, quick):
         "drop_trailing_silence": r.random() < 0.5,
         "strict_min_dur": r.random() < 0.5,
     }
-    eth = {1: 30, 2: 50, 4: 90}[w]
+    eth = r.choice([0, 0, 5, -10, -150]) if faint else {1: 30, 2: 50, 4: 90}[w]
     uc = r.choice([None, "any", "mix", act, act - ch, 0, "avg"]) if ch > 1 else r.choice([None, "mix", 0, 7])
     return dict(rate=rate, w=w, ch=ch, W=W, aw=aw, data=data, params=params, eth=eth, uc=uc, pattern=pattern)
 
@@ -131,6 +133,76 @@ def chk_C05(cs, enc):
         if s0 <= prev_end:
             return "regions overlap or are out of order at sample %d" % s0
         prev_end = s0 + n - 1
+    return None
+
+
+def expected_by_statement(au, cs):
+    """last clause of the statement, evaluated without the model: the regions are the tokenizer segmentation (the tree's own
+    StreamTokenizer, judged by C01-C04) of the per-window decisions (the C07 rule, in exact arithmetic) of the input's windows,
+    with the window counts of C06 (exact ceil / floor). Returns the list of (first sample, number of samples) or None when a
+    window's energy or a quotient is too close to a boundary to be judged here."""
+    from fractions import Fraction
+    from .duration import exact_count
+    data, rate, w, ch, W = cs["data"], cs["rate"], cs["w"], cs["ch"], cs["W"]
+    bps = w * ch
+    nsamp = len(data) // bps
+    vals = struct.unpack("<%d%s" % (nsamp * ch, FMT[w]), data[:nsamp * bps])
+    thr = Fraction(10) ** 0 * Fraction(10 ** (cs["eth"] / 10.0))
+    uc = cs["uc"]
+    decisions = []
+    for k in range(0, nsamp, W):
+        frames = [vals[i * ch:(i + 1) * ch] for i in range(k, min(k + W, nsamp))]
+        n = len(frames)
+        if ch == 1:
+            es = [Fraction(sum(f[0] * f[0] for f in frames), n)]
+        elif uc in (None, "any"):
+            es = [Fraction(sum(f[c] * f[c] for f in frames), n) for c in range(ch)]
+        elif uc in ("mix", "avg", "average"):
+            es = [sum(Fraction(sum(f), ch) ** 2 for f in frames) / n]
+        elif isinstance(uc, int) and -ch <= uc < ch:
+            es = [Fraction(sum(f[uc] * f[uc] for f in frames), n)]
+        else:
+            return None
+        e = max(es)
+        if e != 0 and abs(float(e) / float(thr) - 1) < 0.02:
+            return None
+        decisions.append(e >= thr and e != 0 or (e == 0 and cs["eth"] <= -200))
+    p = cs["params"]
+    wq = Fraction(cs["aw"])
+    mn, mx, ms = exact_count(p["min_dur"], wq, True), exact_count(p["max_dur"], wq, False), exact_count(p["max_silence"], wq, False)
+    if None in (mn, mx, ms):
+        return None
+    mn = max(mn, 1)
+    if p["min_dur"] <= 0 or p["max_dur"] <= 0 or p["max_silence"] < 0 or mn > mx or ms >= mx:
+        return None
+    mode = (au.StreamTokenizer.DROP_TRAILING_SILENCE if p["drop_trailing_silence"] else 0) | (au.StreamTokenizer.STRICT_MIN_LENGTH if p["strict_min_dur"] else 0)
+
+    class Src:
+        def __init__(self):
+            self.i = -1
+
+        def read(self):
+            self.i += 1
+            return self.i if self.i < len(decisions) else None
+
+    try:
+        toks = au.StreamTokenizer(lambda k: decisions[k], mn, mx, ms, mode=mode).tokenize(Src())
+    except Exception:
+        return None
+    return [(s * W, min((e + 1) * W, nsamp) - s * W) for _, s, e in toks]
+
+
+def chk_C05_composition(au, cs, enc):
+    if enc[0] != 0:
+        return None
+    exp = expected_by_statement(au, cs)
+    if exp is None:
+        return None
+    bps = cs["w"] * cs["ch"]
+    got = [(round(C.me_float(st) * cs["rate"]), len(d) // bps) for d, st, en, du, sr, sw, ch in enc[1]]
+    if got != exp:
+        return ("split() yields regions (first sample, samples) %r, but the tokenizer segmentation of the per-window decisions (energy >= %r dB, use_channel=%r, windows of %d samples) "
+                "with the window counts of min_dur/max_dur/max_silence is %r" % (got[:8], cs["eth"], cs["uc"], cs["W"], exp[:8]))
     return None
 
 
@@ -224,7 +296,7 @@ def run(prop, tier):
                             got = [1, exc_code(e)]
                     cases.append(model_case(cs)); impl.append(got); meta.append({"via": how, **describe(cs)})
                     if viol is None:
-                        wv = chk_C05(cs, got)
+                        wv = chk_C05(cs, got) or chk_C05_composition(au, cs, got)
                         if wv:
                             viol = {"what": wv, **meta[-1], "audio_bytes": list(cs["data"])[:2000]}
                     if how == "function":
@@ -235,6 +307,20 @@ def run(prop, tier):
                             "raised error code %r" % (got[1],) if got[0] else "%d region(s) %r" % (len(got[1]), [(C.me_float(x[1]), C.me_float(x[2])) for x in got[1]][:6]),
                             "raised error code %r" % (got_fn[1],) if got_fn[0] else "%d region(s) %r" % (len(got_fn[1]), [(C.me_float(x[1]), C.me_float(x[2])) for x in got_fn[1]][:6])),
                                 **meta[-1], "audio_bytes": list(cs["data"])[:2000]}
+                # the same statement when the audio comes from a file (raw and wav, read at once or window by window)
+                if len(todo) and (len(cases) // 2) % 3 == 0 and len(cs["data"]) < 200000:
+                    raw_p = os.path.join(tmpd, "c05.raw"); wav_p = os.path.join(tmpd, "c05.wav")
+                    open(raw_p, "wb").write(cs["data"])
+                    with wave.open(wav_p, "wb") as f:
+                        f.setframerate(cs["rate"]); f.setsampwidth(cs["w"]); f.setnchannels(cs["ch"]); f.writeframes(cs["data"])
+                    for how, inp, extra in (("raw file, large_file=True", raw_p, dict(large_file=True)), ("raw file", raw_p, {}),
+                                            ("wav file, large_file=True", wav_p, dict(large_file=True)), ("wav file", wav_p, {})):
+                        got = impl_split(au, inp, cs, extra)
+                        cases.append(model_case(cs)); impl.append(got); meta.append({"via": how, **describe(cs)})
+                        if viol is None:
+                            wv = chk_C05(cs, got)
+                            if wv:
+                                viol = {"what": wv, **meta[-1], "audio_bytes": list(cs["data"])[:2000]}
         else:
             sites = alias_sites()
             missing = [a for a in ALIASES if a not in sites]
@@ -267,14 +353,29 @@ def run(prop, tier):
                     except Exception as e:
                         runs["AudioReader"] = [1, exc_code(e)]
 
-                class FakeStdin:
-                    buffer = io.BytesIO(d)
-                old = aio.sys.stdin
-                aio.sys.stdin = FakeStdin
-                try:
-                    runs["stdin"] = impl_split(au, "-", cs)
-                finally:
-                    aio.sys.stdin = old
+                class Bursty(io.RawIOBase):
+                    """a pipe-like raw stream: each low-level read hands over at most `burst` bytes (a live producer)"""
+                    def __init__(self, payload, burst):
+                        self.p, self.i, self.burst = payload, 0, burst
+
+                    def readable(self):
+                        return True
+
+                    def readinto(self, b):
+                        k = min(len(b), self.burst, len(self.p) - self.i)
+                        b[:k] = self.p[self.i:self.i + k]
+                        self.i += k
+                        return k
+                burst = r.choice([1, 3, 7, 64])
+                for nm, mk in (("stdin", lambda: io.BytesIO(d)), ("stdin fed in bursts of %d bytes" % burst, lambda: io.BufferedReader(Bursty(d, burst), buffer_size=max(16, burst)))):
+                    class FakeStdin:
+                        buffer = mk()
+                    old = aio.sys.stdin
+                    aio.sys.stdin = FakeStdin
+                    try:
+                        runs[nm] = impl_split(au, "-", cs)
+                    finally:
+                        aio.sys.stdin = old
                 # alias spellings: short names, and both given with conflicting values (the long name must win)
                 base = dict(cs["params"])
                 short = dict(base, aw=cs["aw"], eth=cs["eth"], uc=cs["uc"], sr=rate, sw=w, ch=ch)
